@@ -1,6 +1,7 @@
 import Mathlib.Logic.Relation
 import Mathlib.Data.List.Basic
 import LekkerVerif.Model.Split
+import LekkerVerif.Core.Disjoint
 
 /-! # C12 — split() yields the connected components -/
 
@@ -177,3 +178,23 @@ example : (components [0, 1, 2, 3] (fun i => if i = 0 then [1, 2] else if i = 1 
   decide
 
 end Split
+
+
+/-! ### each returned sub-circuit behaves like the original -/
+
+/-- **behavioural half of C12**: let the circuit fall into two parts without a link between them (`ANet.Apart`: no common
+pin, links and exposed pins stay on their side), with solution operators `T₁`, `T₂` (what the two solvers returned by
+`split()` compute, C01).  Then *whatever* operator `T` solves the whole circuit (what the original solver computes) equals
+`T₁` on the pins the first part owns and `T₂` on the pins the second part owns, and it has no coefficient between the two
+parts.  (More than two components: apply it repeatedly, one component against the union of the others.) -/
+theorem C12_component_behaves {F : Type} [Field F] {P : Type} [DecidableEq P] (N₁ N₂ : ANet P F) (ap : ANet.Apart N₁ N₂)
+    (hn : (N₁.exposed ++ N₂.exposed).Nodup) (T T₁ T₂ : P → P → F)
+    (h₁ : N₁.SolvedBy T₁) (h₂ : N₂.SolvedBy T₂) (hT : (ANet.union N₁ N₂).SolvedBy T) :
+    (∀ x ∈ N₁.exposed, ∀ y ∈ N₁.exposed, T x y = T₁ x y) ∧ (∀ x ∈ N₂.exposed, ∀ y ∈ N₂.exposed, T x y = T₂ x y) ∧
+    (∀ x ∈ N₁.exposed, ∀ y ∈ N₂.exposed, T x y = 0 ∧ T y x = 0) :=
+  ANet.component_behaves ap hn T T₁ T₂ h₁ h₂ hT
+
+/-- … and the whole is solvable whenever the parts are (the original solver does not fail where the sub-circuits succeed) -/
+theorem C12_union_solved {F : Type} [Field F] {P : Type} [DecidableEq P] (N₁ N₂ : ANet P F) (ap : ANet.Apart N₁ N₂)
+    (T₁ T₂ : P → P → F) (h₁ : N₁.SolvedBy T₁) (h₂ : N₂.SolvedBy T₂) [∀ p, Decidable (N₁.pinSet p)] :
+    (ANet.union N₁ N₂).SolvedBy (ANet.sumOp N₁ T₁ T₂) := ANet.union_solvedBy ap T₁ T₂ h₁ h₂
